@@ -492,4 +492,38 @@ func (f setterFunc) AddTo(m *Message) error { return f(m) }
 
 func TestOracleC06(t *testing.T) { o := newOracle(t); o.oracleRoundTrip() }
 func TestOracleC07(t *testing.T) { o := newOracle(t); o.oracleGetters() }
-func TestOracleC09(t *testing.T) { o := newOracle(t); o.oracleSetters() }
+
+// oracleIntegrityAfterFingerprint: MESSAGE-INTEGRITY must be refused, atomically, wherever a FINGERPRINT already is,
+// and Build must stop at that setter.
+func (o *oracle) oracleIntegrityAfterFingerprint() {
+	for i := 0; i < 60 && o.fails < 3; i++ {
+		o.cases++
+		m := new(Message)
+		_ = m.Build(BindingRequest, TransactionID)
+		pos := o.rng.Intn(3)
+		for k := 0; k < 3; k++ {
+			if k == pos {
+				_ = Fingerprint.AddTo(m)
+			} else {
+				m.Add(AttrSoftware, o.randBytes(o.rng.Intn(9)))
+			}
+		}
+		sr, sl, sn := o.snapshot(m)
+		if err := MessageIntegrity("k").AddTo(m); err == nil {
+			o.failf("MessageIntegrity.AddTo accepted a message with FINGERPRINT at attribute %d of 3", pos)
+		}
+		o.unchanged("refused MessageIntegrity.AddTo", m, sr, sl, sn)
+		later := 0
+		err := m.Build(BindingRequest, TransactionID, NewSoftware("a"), Fingerprint, NewSoftware("b"), MessageIntegrity("k"),
+			setterFunc(func(*Message) error { later++; return nil }))
+		if err == nil || later != 0 {
+			o.failf("Build(..., Fingerprint, Software, MessageIntegrity, next): error=%v, later setters called %d times (expected the integrity setter's error and 0)", err, later)
+		}
+	}
+}
+
+func TestOracleC09(t *testing.T) {
+	o := newOracle(t)
+	o.oracleIntegrityAfterFingerprint()
+	o.oracleSetters()
+}
